@@ -284,7 +284,11 @@ def r09_3(rep: Report) -> None:
     else:
         rep.fail(rid, c2, 'publish = int(publishTime.timestamp())',
                  f'PatchLocation URL is built with {kw}', init)
-    if kw and kw.get('manifest') == 'self.manifest.name' and kw.get('stream') == 'stream.directory':
+    # the constructor parameter `manifest` is what it stored as self.manifest
+    stored = any(isinstance(a_, ast.Assign) and norm(a_.targets[0]) == 'self.manifest' and norm(a_.value) == 'manifest'
+                 for a_ in ast.walk(init))
+    if kw and (kw.get('manifest') == 'self.manifest.name' or (stored and kw.get('manifest') == 'manifest.name')) \
+            and kw.get('stream') == 'stream.directory':
         rep.ok(rid, c2, 'patch URL names the same manifest and stream')
     else:
         rep.fail(rid, c2, 'patch URL names the same manifest and stream', f'{kw}', init)
